@@ -63,6 +63,12 @@ func BuildQuery(op *plan.ClientOp) []byte {
 		q := refdns.Question{Name: name, Type: op.Type, Class: op.Class}
 		if i > 0 {
 			q.Type = op.Type + uint16(i)
+			if op.DistinctQ && len(op.Labels) > 0 {
+				// names that share no suffix: nothing for compression to gain
+				ls := append([][]byte{}, op.Labels...)
+				ls[len(ls)-1] = []byte(fmt.Sprintf("q%d", i))
+				q.Name = refdns.NameFromLabels(ls...)
+			}
 		}
 		m.Q = append(m.Q, q)
 	}
